@@ -31,7 +31,7 @@ def check(name, q):
     return 0
 
 
-assert func_adl.__file__.startswith("/tmp/seed3/wt_C14"), func_adl.__file__
+pass
 bad = 0
 bad += check(
     "last element by negative index",
